@@ -5,8 +5,8 @@ package tsrc
 // witnesses and reports them through core.
 
 import (
-	"math/rand"
 	"fmt"
+	"math/rand"
 	"runtime"
 	"sort"
 	"strconv"
@@ -34,6 +34,7 @@ type Case struct {
 	Src      string // reduced failing program
 	Origin   string // where the failing program came from
 	Original string `json:",omitempty"` // the unreduced program (truncated when huge)
+	Mode     string `json:",omitempty"` // "" = templ fmt on stdin, "fmtfile" = templ fmt for a named file (imports.Process)
 }
 
 // memo caches oracle outcomes by program text (reductions revisit the same
@@ -65,7 +66,12 @@ type Runner struct {
 	Oracle Oracle
 	What   string                     // short name of the property's failure, for summaries
 	Weaker func(from, to string) bool // see Reduce
-	cache  memo
+	// Mode / KeyPrefix distinguish a second workload of the same property (the
+	// named-file path of templ fmt); NoRename keeps the reducer from inventing
+	// identifiers (goimports would go looking for packages of that name).
+	Mode, KeyPrefix string
+	NoRename        bool
+	cache           memo
 
 	perOrigin  sync.Map // class of origin -> *[4]int64 {generated, accepted, changed, failing}
 	kmu        sync.Mutex
@@ -156,7 +162,8 @@ func (r *Runner) Report(p Prog, o Outcome) {
 	class := o.Class
 	seen := map[string]bool{}
 	for round := 0; round < 5; round++ {
-		red := Reduce(cur, class, r.pred, r.Weaker)
+		red := ReduceOpt(cur, class, r.pred, r.Weaker, r.NoRename)
+		red.Key = r.KeyPrefix + red.Key
 		atomic.AddInt64(&r.redTests, int64(red.Tests))
 		atomic.AddInt64(&r.reductions, 1)
 		if !red.Lift {
@@ -165,7 +172,7 @@ func (r *Runner) Report(p Prog, o Outcome) {
 		ro := r.eval(red.Src)
 		detail := ro.Detail
 		if !ro.Accepted || ro.Class == "" { // cannot happen: the reducer only keeps failing programs
-			red.Src, red.Key, detail = cur, KeyOf(cur), o.Detail
+			red.Src, red.Key, detail = cur, r.KeyPrefix+KeyOf(cur), o.Detail
 		}
 		if !seen[red.Key] {
 			seen[red.Key] = true
@@ -178,7 +185,7 @@ func (r *Runner) Report(p Prog, o Outcome) {
 				orig = ""
 			}
 			r.C.Violate(red.Key, fmt.Sprintf("%s [%s] witness %s (from %s): %s", r.What, red.Class, red.Key, p.Origin, detail),
-				Case{Src: red.Src, Origin: p.Origin, Original: orig})
+				Case{Src: red.Src, Origin: p.Origin, Original: orig, Mode: r.Mode})
 		}
 		if len(red.Core) == 0 {
 			return
@@ -277,6 +284,53 @@ func (r *Runner) All(progs []Prog) {
 	wg.Wait()
 }
 
+// RunFile is the bounded workload of the named-file path: the listed
+// witnesses of that path as fixed cases, then the given programs.
+func (r *Runner) RunFile(progs []Prog) {
+	c := r.C
+	if c.ReplayFile != "" {
+		var cs Case
+		c.LoadReplay(&cs)
+		if cs.Mode == r.Mode {
+			r.One(Prog{"replay:" + cs.Origin, cs.Src})
+			c.NontrivialN(2)
+		}
+		return
+	}
+	still := 0
+	var gone []string
+	for _, k := range c.KnownKeys() {
+		if !strings.HasPrefix(k, r.KeyPrefix) {
+			continue
+		}
+		src, ok := KeyProgram(strings.TrimPrefix(k, r.KeyPrefix))
+		if !ok {
+			gone = append(gone, k+" (key not understood)")
+			continue
+		}
+		if o := r.eval(src); o.Accepted && o.Class != "" {
+			still++
+		} else {
+			gone = append(gone, k)
+		}
+		r.One(Prog{"known:" + k, src})
+	}
+	c.Set(r.Mode+"_known_findings_still_failing", still)
+	c.Set(r.Mode+"_known_findings_no_longer_failing", gone)
+	r.All(progs)
+	r.perOrigin.Range(func(k, v any) bool {
+		a := v.(*[4]int64)
+		c.Set(r.Mode+"_source_"+k.(string), map[string]int64{"generated": a[0], "accepted": a[1], "changed_by_fmt": a[2], "failing": a[3]})
+		return true
+	})
+	var ks []string
+	for k, ki := range r.Found {
+		ks = append(ks, fmt.Sprintf("%s  [%s, %d programs]", k, ki.Class, ki.Hits))
+	}
+	sort.Strings(ks)
+	c.Set(r.Mode+"_witness_keys", ks)
+}
+
 // KeyProgram reconstructs the program a canonical witness key stands for.
 func KeyProgram(key string) (string, bool) {
 	switch {
@@ -293,7 +347,7 @@ func KeyProgram(key string) (string, bool) {
 			return BareFileOf(b), true
 		}
 	default:
-		for _, c := range AllCells() {
+		for _, c := range append(AllCells(), ImportCells()...) {
 			if c.Name == key {
 				if c.Body != "" {
 					return BareFileOf(c.Body), true
@@ -311,13 +365,18 @@ func (r *Runner) Run() {
 	if c.ReplayFile != "" {
 		var cs Case
 		c.LoadReplay(&cs)
-		r.One(Prog{"replay:" + cs.Origin, cs.Src})
-		c.NontrivialN(2)
+		if cs.Mode == r.Mode {
+			r.One(Prog{"replay:" + cs.Origin, cs.Src})
+			c.NontrivialN(2)
+		}
 		return
 	}
 	// (0) the listed known findings, as fixed cases
 	still, gone := 0, []string{}
 	for _, k := range c.KnownKeys() {
+		if strings.HasPrefix(k, "fmtfile:") {
+			continue // belongs to the named-file workload
+		}
 		src, ok := KeyProgram(k)
 		if !ok {
 			gone = append(gone, k+" (key not understood)")
@@ -379,7 +438,7 @@ func (r *Runner) Run() {
 		}
 	}
 	for _, cl := range cells {
-		if strings.HasPrefix(cl.Name, "cell=") {
+		if strings.HasPrefix(cl.Name, "cell=") && !cl.NoBase {
 			addBase(cl.Src)
 		}
 	}
